@@ -258,7 +258,19 @@ pub fn kdf_json(k: &Kdf) -> J {
 }
 
 /// KDF cost budget: the property excludes the time and memory a file's own parameters demand
+/// the work factor of whatever format the bytes are dispatched to (a mutation can turn the KDBX signature into the
+/// KeePass 1 one, or the major version 4 into 3, and the bytes that follow then name a different number of rounds)
 pub fn kdf_within_budget(data: &[u8]) -> bool {
+    if data.len() >= 12 && data[4..8] == [0x65, 0xfb, 0x4b, 0xb5] {
+        return crate::legacy::kdb_within_budget(data);
+    }
+    if data.len() >= 12 && data[4..8] == [0x67, 0xfb, 0x4b, 0xb5] && u16::from_le_bytes([data[10], data[11]]) == 3 {
+        return crate::legacy::kdbx3_within_budget(data);
+    }
+    kdbx4_within_budget(data)
+}
+
+pub fn kdbx4_within_budget(data: &[u8]) -> bool {
     // find field 11 leniently
     let mut pos = 12usize;
     loop {
@@ -287,6 +299,10 @@ pub fn kdf_within_budget(data: &[u8]) -> bool {
 
 /// what the real library does with `data` under `key`: the decrypt stage (through `get_xml`) and the full parse
 pub fn observe(data: &[u8], key: &DatabaseKey) -> J {
+    // debugging aid for the watchdog: keep the input of the call in flight where a hang can be replayed from
+    if let Ok(p) = std::env::var("KP_INFLIGHT") {
+        let _ = std::fs::write(p, data);
+    }
     let dx = catch(|| Database::get_xml(&mut &data[..], key.clone()));
     let (decrypt, xml_sha) = match &dx {
         Ok(Ok(x)) => ("ok".to_string(), Some(hex::encode(kdbx::sha256(&[x])))),
